@@ -1,5 +1,5 @@
 (** One entry point for the extracted model runner: component number, numbers in, numbers out. *)
-From Remoc Require Import Lib.Base Run.RunCodec Run.RunRobsVec Run.RunRobsDeque Run.RunRobsList Run.RunRobsMap Run.RunRobsSet Run.RunPort Run.RunBroadcast Run.RunIoChan Run.RunEndpoint Run.RunHandle Run.RunLazy.
+From Remoc Require Import Lib.Base Run.RunCodec Run.RunRobsVec Run.RunRobsDeque Run.RunRobsList Run.RunRobsMap Run.RunRobsSet Run.RunPort Run.RunBroadcast Run.RunIoChan Run.RunEndpoint Run.RunHandle Run.RunLazy Run.RunRwLock.
 
 Definition run (comp : N) (inp : list N) : list N :=
   match comp with
@@ -16,5 +16,6 @@ Definition run (comp : N) (inp : list N) : list N :=
   | 18 => run_io inp
   | 20 => run_handle inp
   | 200 => run_lazy inp
+  | 17 => run_rwlock inp
   | _ => [97]
   end.
